@@ -2,7 +2,7 @@
 import itertools
 import vlib
 ID = 'C18'
-LEAN_MODULES = ['TboxModel.C18.Props']
+LEAN_MODULES = ['TboxModel.C18.Props', 'TboxModel.C18.SemWidth', 'TboxModel.C18.Progress']
 EXE = 'c18'
 THEOREMS = ['Tbox.C18.C18_reachable_inv', 'Tbox.C18.C18_channel_fifo_once', 'Tbox.C18.C18_mutex_exclusive',
             'Tbox.C18.C18_semaphore_bound', 'Tbox.C18.C18_no_lost_wakeup', 'Tbox.C18.C18_no_lost_wakeup_quiescent',
@@ -10,7 +10,13 @@ THEOREMS = ['Tbox.C18.C18_reachable_inv', 'Tbox.C18.C18_channel_fifo_once', 'Tbo
             'Tbox.C18.C18_cleanup_all_dead', 'Tbox.C18.C18_cancelled_switch_terminates', 'Tbox.C18.C18_join_finished_returns_failure', 'Tbox.C18.C18_condition_post_consumes', 'Tbox.C18.C18_cleanup_fails_pending',
             'Tbox.C18.C18_lost_wakeup_condition_counterexample', 'Tbox.C18.C18_join', 'Tbox.C18.C18_join_single',
             'Tbox.C18.C18_lost_wakeup_channel_counterexample', 'Tbox.C18.C18_lost_wakeup_semaphore_counterexample',
-            'Tbox.C18.C18_lost_wakeup_mutex_counterexample', 'Tbox.C18.C18_lost_wakeup_rewait_counterexample']
+            'Tbox.C18.C18_lost_wakeup_mutex_counterexample', 'Tbox.C18.C18_lost_wakeup_rewait_counterexample',
+            # round 4: calls from the main context, aborts, width of the semaphore count
+            'Tbox.C18.C18_routine_calls_never_abort', 'Tbox.C18.C18_main_call_aborts_iff', 'Tbox.C18.C18_main_call_logged',
+            'Tbox.C18.C18_abort_final', 'Tbox.C18.SemW.C18_semw_bound', 'Tbox.C18.SemW.C18_semw_exact',
+            'Tbox.C18.SemW.C18_semw_negative_counterexample', 'Tbox.C18.SemW.C18_semw_overflow_counterexample',
+            # progress form of no-lost-wake-up: matched programs end with every routine dead
+            'Tbox.C18.C18_progress', 'Tbox.C18.C18_progress_conservation']
 SOURCES = ['modules/coroutine/scheduler.cpp'] + vlib.EVENT_SOURCES + vlib.BASE_SOURCES
 FLAVOUR = 'plain'      # ASan does not follow swapcontext (false positives); see DESIGN §6 C18
 LIBS = ['-ldl']
@@ -20,13 +26,17 @@ CASE_TIMEOUT = 30
 SHRINK_TESTS = 80
 MAX_REPORT = 4
 TRUSTED = ['model lean/TboxModel/C18/Model.lean hand-written from modules/coroutine/{scheduler.cpp,channel.hpp,mutex.hpp,semaphore.hpp,'
-           'broadcast.hpp,condition.hpp} AFTER patches/C18-01..05; tied by differential runs of scripted routines on the real scheduler '
+           'broadcast.hpp,condition.hpp} AFTER patches/C18-01..07; tied by differential runs of scripted routines on the real scheduler '
            '(real ucontext switches, real epoll loop; one op line per loop iteration)',
            'ucontext switching (makecontext/swapcontext) and Cabinet token validity (ids never reissued; C08) are trusted',
-           'the harness runs without sanitizers (plain flavour): raw memory safety of the coroutine stacks is not observed']
+           'the harness runs without sanitizers (plain flavour): raw memory safety of the coroutine stacks is not observed except by the valgrind sample',
+           'abort() = failed TBOX_ASSERT of the debug build (the harness compiles without NDEBUG; a release build dereferences a null '
+           'curr_routine instead) or std::terminate for an exception leaving a routine body; every case runs in a child process of its own']
 ASSUMPTIONS = ['routine scripts are finite; main-context calls happen between loop passes',
+               'routine stacks are large enough for the routine body (no guard exists in Routine::Routine; stack_size 0 makes makecontext write below the block)',
+               'the scheduler model keeps semaphore counts as naturals (initial count k >= 0 for semaphore k; exact while releases < 2^31 - 3); the int width is modelled in SemWidth.lean',
                'Cabinet ids do not wrap around (2^64 creations)']
-RULE = ('op files = script definitions + main-context ops (new/resume/cancel/cleanup/pass), each followed by one pass of the real event loop; '
+RULE = ('op files = script definitions + main-context ops (new/resume/cancel/cleanup/pass/main <primitive call>/semw/stack), each followed by one pass of the real event loop; '
         'scripts have NO retry loops, so a missed wake-up leaves a routine visibly blocked in the per-pass summary; non-trivial = at least two '
         'routines blocked at once, or a wake-up of >= 2 waiters, a re-wait, a cancel/cleanup of a blocked routine, or a spurious resume '
         '(driver tags); distinct = distinct op text')
@@ -56,6 +66,8 @@ def rnd_op(rng, nr, ndefs_before, heavy):
         opts += ['n%d' % rng.randrange(ndefs_before), 'N%d' % rng.randrange(ndefs_before)]
     if r < 0.05:
         return 'e'
+    if r < 0.07:
+        return rng.choice(['t', 'K'])
     return rng.choice(opts)
 
 
@@ -76,7 +88,11 @@ def gen_case(rng):
         if r < 0.55: ops.append('pass')
         elif r < 0.70: ops.append('resume %d' % rng.randrange(created))
         elif r < 0.85: ops.append('cancel %d' % rng.randrange(created))
-        elif r < 0.92: ops.append('cleanup')
+        elif r < 0.90: ops.append('cleanup')
+        elif r < 0.96:
+            c = rng.randrange(2)
+            ops.append('main ' + rng.choice(['s%d:%d' % (c, rng.randrange(1, 100)), 'v%d' % c, 'p%d' % c, 'cp%d:%d' % (c, rng.randrange(3)), 'ca%d:%d' % (c, rng.randrange(3)),
+                                             's%d:%d' % (c, rng.randrange(1, 100)), 'v%d' % c, 'r%d' % c, 'a%d' % c, 'cw%d' % c, rng.choice(['y', 'w', 'l0', 'u0', 'b0', 'j0'])]))
         else:
             ops.append('new %d %d' % (rng.randrange(nr), rng.choice([0, 1]))); created += 1
     ops += ['pass', 'pass', 'cleanup']
@@ -216,6 +232,109 @@ def bookkeeping_families():
                 yield ['def 0 r0', 'def 0 ' + sends.replace(',', ',y,')] + ['new 0 1'] * nr + ['new 1 1', 'cancel %d' % kc, 'pass', 'pass', 'pass', 'new 0 1', 'pass']
 
 
+def audit_families():
+    """directed, deterministic (round 4): the corners of the public interface the random generator reaches rarely or never."""
+    # ---- Scheduler: join on self / on a finished / on an unknown key; cancel of self; create(run_now=false); stack sizes
+    yield ['def 0 y,j0,s0:1', 'new 0 1', 'pass', 'pass', 'resume 0', 'pass', 'pass', 'cancel 0', 'pass']          # join on self: stuck until resumed by hand
+    yield ['def 0 j0,s0:1', 'new 0 1', 'pass', 'cancel 0', 'pass', 'pass']
+    yield ['def 0 -', 'def 0 y,y,j0,j63,j1,s0:1', 'new 0 1', 'new 1 1', 'pass', 'pass', 'pass', 'pass']             # finished target, unknown key, self
+    yield ['def 0 w', 'def 0 j0,s0:1', 'def 0 j0,s0:2', 'new 0 0', 'new 1 1', 'new 2 1', 'pass', 'resume 0', 'pass', 'resume 0', 'pass', 'pass']  # join on a not yet started target
+    yield ['def 0 w,w', 'def 0 j0,s0:1', 'new 0 1', 'new 1 1', 'pass', 'cancel 1', 'pass', 'resume 0', 'pass', 'resume 0', 'pass', 'pass']        # joiner cancelled, target finishes later
+    for blk in ('r0', 'l1', 'a0', 'b0', 'w', 'y', 'j1', 'ca0:1,cw0'):
+        yield ['def 0 x0,%s,s1:1' % blk, 'def 0 l1,w', 'new 1 1', 'new 0 1', 'pass', 'pass', 'pass']                 # cancel of self, then a blocking call
+        yield ['def 1 x0,%s,s1:1' % blk, 'def 0 l1,w', 'new 1 1', 'new 0 1', 'pass', 'pass', 'pass']
+    yield ['def 0 x0,x0,x5,y,N0,n0', 'new 0 1', 'pass', 'pass', 'resume 1', 'pass', 'pass', 'cleanup']
+    for k in (64, 128, 256, 1024):
+        yield ['stack %d' % k, 'def 0 r0,s1:1,y', 'def 0 s0:1,r1', 'new 0 1', 'stack 1024', 'new 1 0', 'pass', 'resume 1', 'pass', 'pass', 'stack 4', 'stack 64 1']
+    yield ['def 0 y', 'def 0 N0,N0,n0,N0', 'new 1 0', 'new 0 0', 'pass', 'resume 0', 'resume 1', 'pass', 'resume 3', 'resume 5', 'pass', 'cleanup', 'pass']
+    # ---- Channel: several producers AND several consumers, interleaved by yields
+    for np_, nc in ((2, 2), (3, 2), (2, 3), (1, 3), (3, 1)):
+        for yl in ('', 'y,'):
+            prod = ','.join('%ss0:%d' % (yl, i + 1) for i in range(nc))
+            cons = ','.join('%sr0' % yl for _ in range(np_))
+            yield ['def 0 ' + prod, 'def 0 ' + cons] + ['new 1 1'] * nc + ['new 0 1'] * np_ + ['pass'] * (2 * max(np_, nc) + 3)
+            yield ['def 0 ' + prod, 'def 0 ' + cons] + ['new 0 1'] * np_ + ['new 1 1'] * nc + ['pass'] * (2 * max(np_, nc) + 3)
+            yield ['def 0 ' + prod, 'def 0 ' + cons, 'new 0 1', 'new 1 1', 'pass', 'new 1 1', 'new 0 1', 'pass', 'new 0 1', 'new 1 1'] + ['pass'] * 6
+    # ---- Broadcast: post with no waiters, then a waiter; Mutex: unlock by a non-owner / without a holder, lock twice by the owner,
+    #      a routine that returns while holding the mutex (the others stay blocked: it is not free), Locker-like nesting
+    yield ['def 0 p0,p0,b0,s0:1', 'def 0 p0', 'new 0 1', 'pass', 'new 1 1', 'pass', 'pass']
+    yield ['def 0 l0,w,u0', 'def 0 u0,l0,s0:1,u0', 'def 0 u0,u1', 'new 0 1', 'new 1 1', 'new 2 1', 'pass', 'pass', 'resume 0', 'pass', 'pass', 'pass']
+    yield ['def 0 l0,l0,y,u0,u0,l0', 'def 0 l0,s0:1', 'new 0 1', 'new 1 1', 'pass', 'pass', 'pass', 'pass']
+    yield ['def 0 l0', 'def 0 l0,s0:1', 'new 0 1', 'new 1 1', 'new 1 1', 'pass', 'pass', 'pass', 'cancel 1', 'pass', 'cleanup']   # holder returned: mutex stays held for ever
+    yield ['def 0 l0,y', 'def 0 j0,l0,s0:1', 'new 0 1', 'new 1 1', 'pass', 'pass', 'pass', 'pass', 'cleanup']                       # returns while joined AND holding
+    # ---- Semaphore k has initial count k: exhaust it exactly, one more blocks; releases beyond the initial count
+    for k in range(4):
+        yield ['def 0 ' + ','.join(['a%d' % k] * (k + 1)) + ',s0:1', 'def 0 v%d' % k, 'new 0 1', 'pass', 'pass', 'new 1 1', 'pass', 'pass']
+        yield ['def 0 ' + ','.join(['v%d' % k] * 3 + ['a%d' % k] * (k + 4)) + ',s0:1', 'new 0 1', 'pass', 'main v%d' % k, 'pass', 'pass']
+    # ---- Condition: kAll (0, 2) / kAny (1, 3); add between two waits, post of a key of the previous round, add of a key twice
+    for k in (0, 1):
+        yield ['def 0 ca%d:1,ca%d:1,ca%d:2,cw%d,ca%d:3,cw%d,s0:1' % (k, k, k, k, k, k), 'def 0 cp%d:1' % k, 'def 0 cp%d:2' % k, 'def 0 cp%d:3' % k,
+               'new 0 1', 'pass', 'new 1 1', 'pass', 'new 2 1', 'pass', 'new 1 1', 'new 2 1', 'pass', 'new 3 1', 'pass', 'pass']
+        yield ['def 0 cw%d,ca%d:1,cw%d,cw%d,s0:1' % (k, k, k, k), 'new 0 1', 'pass', 'main cp%d:1' % k, 'pass', 'pass']     # wait with nothing added fails; re-wait after satisfaction fails
+    # ---- calls from the MAIN context: the wake-up paths (a send / release / post / Condition::post made by an event callback), and every
+    #      member that is reserved for routines (abort() of the debug build)
+    for w, sig in (('r0', 's0:5'), ('a0', 'v0'), ('b0', 'p0'), ('ca0:1,cw0', 'cp0:1'), ('ca1:1,ca1:2,cw1', 'cp1:2')):
+        for nw in (1, 2, 3):
+            yield ['def 0 %s,s1:1' % w] + ['new 0 1'] * nw + ['pass', 'main ' + sig, 'pass', 'main ' + sig, 'pass', 'pass']
+            yield ['def 0 %s,s1:1' % w] + ['new 0 1'] * nw + ['pass', 'main ' + sig, 'main ' + sig, 'cancel 0', 'pass', 'pass']
+            yield ['def 0 %s,s1:1' % w, 'main ' + sig, 'main ' + sig] + ['new 0 1'] * nw + ['pass', 'pass', 'main ' + sig, 'pass']
+    yield ['main s0:1', 'main s0:2', 'main r0', 'main r0', 'main s1:3', 'def 0 r1,r0', 'new 0 1', 'pass', 'main s0:4', 'pass', 'main r0']
+    yield ['main a3', 'main a3', 'main a3', 'main v0', 'main a0', 'main ca0:1', 'main cp0:1', 'main cw0', 'main cp0:9', 'main a3']
+    for bad in ('y', 'w', 'r0', 'l0', 'u0', 'a0', 'b0', 'j0', 'j63'):
+        yield ['def 0 l0,w', 'new 0 1', 'pass', 'main s1:1', 'main ' + bad, 'pass', 'main s1:2']
+        yield ['main ' + bad, 'pass']
+    yield ['main ca2:1', 'main cw2', 'pass']
+    yield ['def 0 ca2:1,cw2', 'new 0 1', 'pass', 'main cw2', 'main ca3:1', 'main cw3', 'pass']
+    yield ['main n0', 'main x0', 'main e', 'main t', 'main K', 'main', 'main s0:1 1', 'main q', 'def 0 t,', 'def 0 K1', 'pass']
+    # ---- an exception that leaves a routine body (std::terminate), Scheduler::cleanup() inside a routine (TBOX_ASSERT)
+    for pre in ('', 'y,', 'r0,', 'l0,y,', 's0:1,y,y,'):
+        for op in ('t', 'K'):
+            yield ['def 0 %s%s,s1:1' % (pre, op), 'def 0 j0,s1:2', 'def 0 s0:7,l0', 'new 0 1', 'new 1 1', 'pass', 'new 2 1', 'pass', 'pass', 'pass']
+            yield ['def 0 %s%s,s1:1' % (pre, op), 'new 0 1', 'pass', 'cleanup', 'pass']
+            yield ['def 1 %s%s,s1:1' % (pre, op), 'new 0 1', 'pass', 'cancel 0', 'pass', 'pass']
+            yield ['def 0 %s%s' % (pre, op), 'new 0 0', 'pass', 'cleanup', 'resume 0', 'pass']       # never started: deleted, never runs
+    # ---- width / sign of Semaphore::count_ (an int): initial counts on both sides of 0, 2^15, 2^16, 2^31; releases up to and beyond INT_MAX
+    IM = 2147483647
+    for init in (0, 1, 2, 3, -1, -2, -3, 32767, 32768, 65535, 65536, IM - 2, IM - 1, IM, -IM, -IM - 1):
+        pats = ['a', 'va', 'vva', 'vvva', 'av', 'vaa', 'aa', 'vvvaaaa', 'vvvvaaaaa', 'vavava', 'vvv', 'vvvavvvaa']
+        yield ['def 0 a0,s0:1', 'new 0 1'] + ['semw %d %s' % (init, p_) for p_ in pats] + ['main v0', 'pass']
+    yield ['semw 2147483648 a', 'semw -2147483649 a', 'semw 1 ax', 'semw 01 a', 'semw -0 a', 'semw 1', 'semw x a', 'semw 1 ' + 'a' * 65, 'semw -1 v', 'pass']
+    # ---- many routines (keys / tokens / cabinet growth): a spawner creates N routines in one switch
+    for n, body in ((300, 'r0,s1:1'), (2000, 'y,y')):
+        yield ['stack 64', 'def 0 ' + body, 'def 0 ' + ','.join(['n0'] * n), 'new 1 1', 'pass', 'pass', 'main s0:1', 'pass', 'pass', 'cleanup']
+
+
+def gen_matched(rng):
+    """a program of the class of `C18_progress` (producers / consumers / lockers, receives <= sends, acquires <= k + releases):
+    the model ends with every routine dead, so must the real scheduler; passes until nothing can be ready any more"""
+    c, k, m = rng.randrange(PR), rng.randrange(PR), rng.randrange(PR)
+    nprod, ncons, nlock = rng.choice([1, 2, 3]), rng.choice([1, 2, 3]), rng.choice([0, 1, 2, 3])
+    sends = rels = 0
+    defs = []
+    for _ in range(nprod):
+        ops = [rng.choice(['y', 's%d:%d' % (c, rng.randrange(1, 100)), 'v%d' % k]) for _ in range(rng.randrange(1, 6))]
+        sends += sum(o.startswith('s') for o in ops); rels += sum(o.startswith('v') for o in ops)
+        defs.append(ops)
+    for _ in range(nlock):
+        ops = []
+        for _ in range(rng.choice([1, 2])):
+            body = [rng.choice(['y', 's%d:%d' % (c, rng.randrange(1, 100)), 'v%d' % k]) for _ in range(rng.randrange(0, 3))]
+            sends += sum(o.startswith('s') for o in body); rels += sum(o.startswith('v') for o in body)
+            ops += ['l%d' % m] + body + ['u%d' % m] + rng.choice([[], ['y']])
+        defs.append(ops)
+    recvs, acqs = rng.randrange(0, sends + 1), rng.randrange(0, rels + k + 1)
+    cons = [[] for _ in range(ncons)]
+    for _ in range(recvs): cons[rng.randrange(ncons)].append('r%d' % c)
+    for _ in range(acqs): cons[rng.randrange(ncons)].append('a%d' % k)
+    for l in cons:
+        rng.shuffle(l)
+        if rng.random() < 0.5: l.insert(rng.randrange(len(l) + 1), 'y')
+    defs += cons
+    order = list(range(len(defs))); rng.shuffle(order)
+    total = sum(len(d) for d in defs)
+    return ['def 0 ' + (','.join(d) or '-') for d in defs] + ['new %d 1' % i for i in order] + ['pass'] * (total + 3)
+
+
 ALPHA = ['r0', 's0:1', 'l0', 'u0', 'a0', 'v0', 'y', 'b0', 'p0']
 
 
@@ -232,11 +351,15 @@ def gen(rng, tier):
         yield ops
     for ops in bookkeeping_families():
         yield ops
+    for ops in audit_families():
+        yield ops
     n = 500 if tier == 'quick' else 6000
     for _ in range(n):
         yield gen_case(rng)
     for _ in range(n // 2):
         yield gen_backtoback(rng)
+    for _ in range(n // 4):
+        yield gen_matched(rng)
     if tier == 'thorough':
         # exhaustive: 2 routines x all scripts of length <= 3 over the reduced alphabet, plus 3 routines x length <= 2
         scripts3 = [list(p) for L in range(1, 4) for p in itertools.product(ALPHA, repeat=L)]
@@ -258,7 +381,7 @@ def gen(rng, tier):
 
 def nontrivial(ops, model_lines):
     tags = ' '.join(l for l in model_lines if l.startswith('B '))
-    return 1 if any(t in tags for t in ('susp>=2', 'wake2', 'rewait', 'cancel-blocked', 'cleanup-started', 'spurious-resume', 'nonedge')) else None
+    return 1 if any(t in tags for t in ('susp>=2', 'wake2', 'rewait', 'cancel-blocked', 'cleanup-started', 'spurious-resume', 'nonedge', 'main-wake', 'main-abort', 'abort')) else None
 
 
 LEVEL_TEXT = ('Lean 4 theorems over a deterministic model of the coroutine scheduler and its five primitives: an inductive invariant over every '
@@ -267,7 +390,7 @@ LEVEL_TEXT = ('Lean 4 theorems over a deterministic model of the coroutine sched
               'condition/join waiters are registered for the next post); cancel makes every blocking call fail without suspending; tied to the real '
               'scheduler on every run by differential execution of scripted ucontext routines on the real event loop')
 LEVEL_NOTE = ('trusted: Lean kernel, hand-written model + differential tie (coverage bounded by the generator, measured), ucontext, Cabinet; '
-              'no sanitizer on the implementation side (plain flavour; a valgrind memcheck sample runs in the thorough tier)')
+              'no sanitizer on the implementation side (plain flavour; a valgrind memcheck sample runs in both tiers, larger in thorough)')
 TECHNIQUE = 'Lean 4 invariant proof over all executions of a scheduler model + model/implementation correspondence check'
 DESIGN_REF = 'DESIGN.md §6 C18, §7 row 10'
 
@@ -279,8 +402,9 @@ _RUN = {'tier': 'quick', 'seed': 1, 'vg_fail': None}
 
 def _valgrind_sample():
     import os, random, shutil
-    if _RUN['tier'] != 'thorough' or not shutil.which('valgrind'):
-        return {'valgrind': 'not run (quick tier or valgrind missing)'}
+    if not shutil.which('valgrind'):
+        return {'valgrind': 'not run (valgrind missing)'}
+    quick = _RUN['tier'] != 'thorough'
     exe, log = vlib.build_harness(ID, SOURCES, os.path.join(vlib.VERIF, 'props', ID, 'harness.cpp'), FLAVOUR, (), LIBS)
     if exe is None:
         return {'valgrind': 'harness build failed'}
@@ -290,10 +414,12 @@ def _valgrind_sample():
         if f.endswith('.ops'):
             cases.append([l.rstrip('\n') for l in open(os.path.join(cdir, f)) if l.strip() and not l.startswith('#')])
     rng = random.Random('%s-vg:%d' % (ID, _RUN['seed']))
-    for _ in range(120):
+    for _ in range(12 if quick else 120):
         cases.append(gen_case(rng))
-    for _ in range(120):
+    for _ in range(12 if quick else 120):
         cases.append(gen_backtoback(rng))
+    aud = [c for c in audit_families() if sum(o.count(',') for o in c) < 100]      # not the many-routine cases
+    cases += aud[::9] if quick else aud
     text = ''.join(vlib.case_text(i, c) for i, c in enumerate(cases))
     rc, so, se = vlib.run_proc(['valgrind', '-q', '--error-exitcode=9', exe], text, 900, env={'C18_WATCHDOG': '30'})
     res = {'valgrind': {'cases': len(cases), 'exit': rc, 'errors': se.count('== Invalid') + se.count('== Conditional')}}
